@@ -243,4 +243,13 @@ def route (sites : List Site) (r : Req) : Outcome :=
   | none => .notFound (notFoundStatus r.protoMajor)
   | some (i, pfx) => .site i pfx
 
+/-- several requests through one routing table, in order (`vhostTrie.Match` keeps no state) -/
+def lookups (t : Trie) (qs : List Bytes) : List (Option Val) := qs.map t.match_
+
+/-- judge of c01.seq: the answers of a sequence of lookups through one trie against the answers
+the same lookups get one by one on a fresh trie -/
+def seqVerdict (seq fresh : List String) : String :=
+  if seq == fresh then "ok"
+  else "bad:history:the site that answers a request depends on the requests made before it"
+
 end Casket.VHost
